@@ -38,33 +38,65 @@ def cell(A, B, j, i, dt):
     return (sp.exp(A * (j + 1) * dt) - sp.exp(A * j * dt)) / A * (sp.exp(B * (i + 1) * dt) - sp.exp(B * i * dt)) / B
 
 
-def is_zero(e, syms):
-    """True (identically zero), False (numerically non-zero at a witness point), None (undecided)"""
-    e0 = sp.simplify(sp.expand(e.rewrite(sp.exp)))
-    if e0 == 0:
-        return True, None
+def _numeric(e, case, rnd):
+    """value of e at a random point (undefined functions replaced by fixed smooth numeric ones)"""
+    from sympy.core.function import AppliedUndef
+    sub = {}
+    for s in sorted(e.free_symbols, key=str):
+        sub[s] = rnd.randint(1, 5) if s.is_integer else sp.Rational(rnd.randint(3, 40), 10)
+    if I_ in sub and J_ in sub and case == 'off':
+        sub[J_] = sub[I_] + rnd.randint(1, 3)
+    e2 = e.subs(sub)
+
+    def fn(x):
+        k = sum(ord(ch) for ch in x.func.__name__) % 7 + 1
+        return 2 + sp.sin(k + sum((j + 1) * a for j, a in enumerate(x.args)) * sp.Rational(3, 7))
+    for _ in range(4):
+        if not e2.atoms(AppliedUndef):
+            break
+        e2 = e2.replace(lambda x: isinstance(x, AppliedUndef) and not (x.atoms(AppliedUndef) - {x}), fn)
+    return abs(complex(sp.N(e2, 30))), {str(k): str(v) for k, v in sub.items()}
+
+
+class _Timeout(Exception):
+    pass
+
+
+def is_zero(e, syms, budget_s=20):
+    """(True, None) identically zero (sympy) | (False, witness) numerically non-zero at a point | (None, None) undecided"""
     import random
+    import signal
+    if e == 0:
+        return True, None
     rnd = random.Random(7)
-    worst = 0
-    wit = None
+    worst, wit = 0, None
     for _ in range(6):
-        sub = {}
-        for s in sorted(e.free_symbols, key=str):
-            if s.is_integer:
-                sub[s] = rnd.randint(1, 5)
-            else:
-                sub[s] = sp.Rational(rnd.randint(3, 40), 10)
-        if I_ in sub and J_ in sub and syms.get('case') == 'off':
-            sub[J_] = sub[I_] + rnd.randint(1, 3)
         try:
-            v = abs(complex(sp.N(e.subs(sub), 30)))
+            v, sub = _numeric(e, syms.get('case'), rnd)
         except Exception:       # noqa
             continue
         if v > worst:
-            worst, wit = v, {str(k): str(x) for k, x in sub.items()}
+            worst, wit = v, sub
     if worst > 1e-9:
         return False, dict(wit, value=worst)
-    return None, None
+
+    def handler(signum, frame):
+        raise _Timeout()
+    old = None
+    try:
+        old = signal.signal(signal.SIGALRM, handler)
+        signal.setitimer(signal.ITIMER_REAL, budget_s)
+    except ValueError:
+        old = None              # not in the main thread: no budget
+    try:
+        e0 = sp.simplify(sp.expand(e.rewrite(sp.exp)))
+        return (True, None) if e0 == 0 else (None, None)
+    except _Timeout:
+        return None, None
+    finally:
+        if old is not None:
+            signal.setitimer(signal.ITIMER_REAL, 0)
+            signal.signal(signal.SIGALRM, old)
 
 
 class KernelTarget:
@@ -260,3 +292,194 @@ _kernel_targets = targets
 
 def targets(tier='quick'):
     return _kernel_targets(tier) + gsc_targets()
+
+
+# ---- occupation() and correlation(): how the kernels, the system correlations, the couplings and the thermal terms are put together
+class LenOnly:
+    """a list of which only the length is known"""
+    def __init__(self, n):
+        self.n = n
+
+    def pv_len(self, ip):
+        return self.n
+
+
+class WrapperTarget:
+    """real TwoTimeBathCorrelations.correlation / occupation with the REAL _calc_kernel inlined, generate_system_correlations a stub
+    (its contract: bathcorr/*), the system correlations a generic array C[i,j] = cr + i ci, np.sum / np.cumsum / np.append opaque.
+    Required (interaction picture, change only):   g_1 g_2 * SUM( Re C * K_R + i Im C * K_I )   with (K_R, K_I) = _calc_kernel(freq_1,
+    time_1, freq_2, time_2, dagg) of the SAME arguments (time_2, freq_2 defaulting to time_1, freq_1), g_k = dw[k] sqrt(J(freq_k)),
+    C cut to the first round(time_2/dt) rows and columns; plus the thermal occupation n(freq_1) iff not change_only, equal frequencies
+    and one dagger (and + 1 for <a a^+>); times exp(i((2 dagg0 - 1) freq_2 time_2 + (2 dagg1 - 1) freq_1 time_1)) outside the
+    interaction picture.  occupation(freq, dw): PREPEND(0, Re CUMSUM(SUM_axis0(Re C K_R + i Im C K_I)) J(freq) dw) with the kernel of
+    (freq, T, freq, T, (1,0)), T = len(pt) dt, plus n(freq) iff not change_only and temperature > 0."""
+
+    def __init__(self, which):
+        self.which = which
+        self.prop, self.name, self.qualname = PROP, 'bathcorr/%s' % which, 'bath_dynamics.TwoTimeBathCorrelations.%s' % which
+
+    def replay(self, ob):
+        return {'func': 'bath_closed_form', 'inputs': {'obligation': ob['name']}}
+
+    def run(self, timeout_ms, tier):
+        t0 = time.time()
+        repo = Repo()
+        res = {'target': self.name, 'function': self.qualname, 'property': self.prop, 'paths': 0, 'obligations': [], 'undecided': [], 'errors': [],
+               'flags': ['REAL_FLOAT', 'ELEMENTWISE_SYMPY'], 'lib_pure': [], 'lib_used': ['numpy.sum, cumsum, append, arange as opaque functions'],
+               'functions_extra': []}
+        fref = repo.resolve(self.qualname)
+        kref = repo.resolve('bath_dynamics.TwoTimeBathCorrelations._calc_kernel')
+        if fref is None or kref is None:
+            res['undecided'].append('contract target missing: %s' % self.qualname)
+            return res
+        res['functions_extra'].append(describe(fref))
+        R = Registry()
+        earr.install(R)
+
+        @model
+        def m_gsc(ip, args, kw):
+            ip.ghost.setdefault('gsc_calls', []).append(list(args[1:]))
+        R.models['bath_dynamics.TwoTimeBathCorrelations.generate_system_correlations'] = m_gsc
+        Jf = sp.Function('J', positive=True)
+
+        @model
+        def m_sd(ip, args, kw):
+            return SymV(Jf(earr.to_sym(args[1])))
+        R.models['CorrM.spectral_density'] = m_sd
+        dt = sp.Symbol('dt', positive=True)
+        w1, w2, T = sp.Symbol('w1', positive=True), sp.Symbol('w2', positive=True), sp.Symbol('T', positive=True)
+        S, D, M = [sp.Symbol(n, integer=True, positive=True) for n in ('s', 'd', 'm')]
+        dw1, dw2 = sp.Symbol('dw1', positive=True), sp.Symbol('dw2', positive=True)
+        cr, ci = sp.Function('cr', real=True)(I_, J_), sp.Function('ci', real=True)(I_, J_)
+        agg = {}
+
+        def note(name, ok, info):
+            a = agg.setdefault(name, {'ok': True, 'n': 0, 'first': None})
+            a['n'] += 1
+            if ok is None:
+                a['und'] = True
+            elif not ok and a['ok']:
+                a['ok'], a['first'] = False, info
+
+        def mkself(ip, temp, n_pt):
+            pt = mkobj(repo, 'process_tensor.SimpleProcessTensor', _dt=SymV(dt), _mpo_tensors=LenOnly(SymV(n_pt)))
+            bath = Obj('BathM', {'correlations': Obj('CorrM', {})})
+            C = EArr(2, (sp.Integer(0), n_pt + M), (sp.Integer(0), n_pt + M), cr + sp.I * ci)
+            return mkobj(repo, 'bath_dynamics.TwoTimeBathCorrelations', _process_tensor=pt, _bath=bath, _temp=(SymV(T) if temp else 0),
+                         _system_correlations=C)
+
+        def n_th(w, temp):
+            return sp.exp(-w / T) / (1 - sp.exp(-w / T)) if temp else sp.Integer(0)
+
+        def same_pieces(got, re_k, im_k, rr, cc, case):
+            g = KernelTarget.element(got, rr, cc)
+            a, b = KernelTarget.element(re_k, rr, cc), KernelTarget.element(im_k, rr, cc)
+            if g is None or a is None or b is None:
+                return None
+            d = g - (cr * a + sp.I * ci * b)
+            if case == 'diag':
+                d = d.subs(J_, I_)
+            return is_zero(d, {'case': case})[0]
+        configs = []
+        if self.which == 'correlation':
+            for dagg in ((1, 0), (0, 1), (1, 1), (0, 0)):
+                for fcfg in ('generic', 'equal', 'default'):
+                    for pos in ('inside', 'end', 'default'):
+                        for temp in (True, False):
+                            for ipic in (True, False):
+                                for co in (True, False):
+                                    if tier == 'quick':
+                                        # one configuration per value of every switch, plus the thermal / phase / default-argument corners
+                                        full = (dagg, fcfg, pos) in (((1, 0), 'generic', 'inside'), ((0, 1), 'equal', 'end'), ((1, 1), 'default', 'default'),
+                                                                     ((0, 0), 'equal', 'inside'), ((0, 1), 'default', 'inside'), ((1, 0), 'equal', 'default'))
+                                        if not full or (temp is False and (ipic or co)):
+                                            continue
+                                    configs.append((dagg, fcfg, pos, temp, ipic, co))
+        else:
+            for temp in (True, False):
+                for co in (True, False):
+                    configs.append(((1, 0), 'equal', 'end', temp, True, co))
+        for (dagg, fcfg, pos, temp, ipic, co) in configs:
+            for case in ('off', 'diag'):
+                label = 'dagg=%s,%s,t1 %s,%s,%s,%s,%s' % (dagg, fcfg, pos, 'T>0' if temp else 'T=0', 'interaction picture' if ipic else 'lab frame',
+                                                        'change only' if co else 'total', case)
+                Vv.reset_fresh()
+                ip = Interp(repo, R, [], solver_timeout_ms=timeout_ms)
+                ip.ghost['earr_case'] = case
+                ip.ghost['earr_generic'] = {w1, w2}
+                f2 = w2 if fcfg == 'generic' else w1
+                s_, n_ = (S, S + D) if pos == 'inside' else (S, S)
+                try:
+                    if self.which == 'correlation':
+                        self_ = mkself(ip, temp, n_)
+                        kw = {'dw': (SymV(dw1), SymV(dw2)), 'dagg': tuple(dagg), 'interaction_picture': ipic, 'change_only': co, 'progress_type': 'silent'}
+                        if fcfg != 'default':
+                            kw['freq_2'] = SymV(f2)
+                        if pos != 'default':
+                            kw['time_2'] = SymV(n_ * dt)
+                        out = ip.call(fref, [self_, SymV(w1), SymV(s_ * dt)], kw)
+                        ref = ip.call(kref, [self_, SymV(w1), SymV(s_ * dt), SymV(f2), SymV(n_ * dt), tuple(dagg)], {})
+                    else:
+                        self_ = mkself(ip, temp, n_)
+                        out = ip.call(fref, [self_, SymV(w1)], {'dw': SymV(dw1), 'change_only': co, 'progress_type': 'silent'})
+                        ref = ip.call(kref, [self_, SymV(w1), SymV(n_ * dt), SymV(w1), SymV(n_ * dt), (1, 0)], {})
+                except Unsupported as u:
+                    res['undecided'].append('unsupported construct in %s [%s]: %s' % (self.which, label, u))
+                    continue
+                except PyRaise as pr:
+                    note('bathcorr/%s/no-exception' % self.which, False, {'configuration': label, 'exception': pr.exc.typ})
+                    continue
+                except (TypeError, ValueError, AttributeError) as ex:
+                    res['undecided'].append('value outside the element-wise domain in %s [%s]: %s' % (self.which, label, ex))
+                    continue
+                res['paths'] += 1
+                sums = ip.ghost.get('earr_sums', [])
+                regions = {'a': ((0, s_), (0, s_)), 'b': ((0, s_), (s_, n_)), 'c': ((s_, n_), (s_, n_))}
+                regions = {k: v for k, v in regions.items() if sp.simplify((v[0][1] - v[0][0]) * (v[1][1] - v[1][0])) != 0}
+                if self.which == 'correlation':
+                    val = out.e if isinstance(out, SymV) else None
+                    SUM = sp.Function('SUM')(sp.Integer(0))
+                    want = sp.sqrt(Jf(w1)) * dw1 * sp.sqrt(Jf(f2)) * dw2 * SUM
+                    if (not co) and fcfg != 'generic' and dagg in ((1, 0), (0, 1)):
+                        want += n_th(w1, temp) + (1 if dagg == (0, 1) else 0)
+                    if not ipic:
+                        want *= sp.exp(sp.I * ((2 * dagg[0] - 1) * f2 * n_ * dt + (2 * dagg[1] - 1) * w1 * s_ * dt))
+                    ok = None if val is None else is_zero(val - want, {})[0]
+                    note('bathcorr/correlation/assembly', ok, {'configuration': label, 'returned': str(val)[:300], 'required': str(want)[:300]})
+                    want_axis = None
+                else:
+                    val = out[1].e if isinstance(out, tuple) and len(out) == 2 and isinstance(out[1], SymV) else None
+                    SUM = sp.Function('SUM_axis0')(sp.Integer(0))
+                    want = sp.Function('PREPEND')(sp.Integer(0), sp.re(sp.Function('CUMSUM')(SUM)) * Jf(w1) * dw1)
+                    if not co:
+                        want += n_th(w1, temp)
+                    ok = None if val is None else is_zero(val - want, {})[0]
+                    note('bathcorr/occupation/assembly', ok, {'configuration': label, 'returned': str(val)[:300], 'required': str(want)[:300]})
+                    want_axis = 0
+                if len(sums) != 1 or sums[0][1] != want_axis:
+                    note('bathcorr/%s/integrand' % self.which, False, {'configuration': label, 'sums taken': len(sums)})
+                    continue
+                for rn, (rr, cc) in regions.items():
+                    if rn == 'b' and case != 'off':
+                        continue
+                    ok = same_pieces(sums[0][0], ref[0], ref[1], rr, cc, case)
+                    note('bathcorr/%s/integrand' % self.which, ok, {'configuration': label, 'region': rn})
+                gc = ip.ghost.get('gsc_calls', [])
+                okg = len(gc) == 1 and isinstance(gc[0][0], SymV) and sp.simplify(gc[0][0].e - n_ * dt) == 0
+                note('bathcorr/%s/correlations-generated-up-to-the-later-time' % self.which, okg, {'configuration': label, 'calls': repr(gc)[:200]})
+        for name, a in sorted(agg.items()):
+            info = {'configurations': a['n'], 'first failing': a['first']}
+            if a.get('und') and a['ok']:
+                res['undecided'].append('sympy could not decide %s in some configuration' % name)
+                continue
+            res['obligations'].append({'name': name, 'backend': 'sympy', 'flags': ['ELEMENTWISE_SYMPY'], 'info': info, 'model': info, 'pc_sat': 'sat',
+                                       'result': 'discharged' if a['ok'] else 'refuted', 'seconds': 0.0})
+        res['seconds'] = round(time.time() - t0, 3)
+        return res
+
+
+_t_gsc = targets
+
+
+def targets(tier='quick'):
+    return _t_gsc(tier) + [WrapperTarget('correlation'), WrapperTarget('occupation')]
